@@ -19,6 +19,28 @@ func Random(rng *rand.Rand, nIn, nInstr, fieldBits int) *Program {
 		p.Inputs = append(p.Inputs, Kind(1+rng.IntN(2)))
 	}
 	nreg := nIn
+	return finish(rng, p, nreg, nIn, nInstr, fieldBits)
+}
+
+// RandomWithLits is Random plus 1..3 literal constants (0, 1, 2, 3, 5, -1, -2) among the
+// inputs: programs then multiply / add / compare with compile-time constants, which drives
+// the builders' constant-folding and coefficient paths. The literals come after the nIn
+// variable inputs; callers size assignments with len(p.Inputs) and call FillLits.
+func RandomWithLits(rng *rand.Rand, nIn, nInstr, fieldBits int) *Program {
+	p := &Program{}
+	for i := 0; i < nIn; i++ {
+		p.Inputs = append(p.Inputs, Kind(1+rng.IntN(2)))
+	}
+	p.Lits = make([]*big.Int, nIn)
+	vals := []int64{0, 1, 2, 3, 5, -1, -2, 2, 3}
+	for k := 0; k < 1+rng.IntN(3); k++ {
+		p.Inputs = append(p.Inputs, Const)
+		p.Lits = append(p.Lits, big.NewInt(vals[rng.IntN(len(vals))]))
+	}
+	return finish(rng, p, len(p.Inputs), len(p.Inputs), nInstr, fieldBits)
+}
+
+func finish(rng *rand.Rand, p *Program, nreg, nIn, nInstr, fieldBits int) *Program {
 	var bools []int
 	pick := func() int { return rng.IntN(nreg) }
 	pickBool := func() int {
